@@ -44,6 +44,8 @@ type Compiler struct {
 	varScopes       []map[string]string
 	currScope       *map[string]string
 	currModule      string
+	// The index / member expression compiled next is the target of an assignment: its cell is needed, not its value.
+	asPlace bool
 	// Number of function literals compiled so far, per module (part of their names, which a program can print).
 	lambdaCount map[string]uint
 	// Root scope (globals, singletons and imported globals) of every module.
